@@ -3,7 +3,7 @@ import ast
 
 from ..core.model import AnchorError, FuncInfo, ClassInfo
 from ..core.cfg import walk_shallow, cfg_of
-from ..core.facts import U
+from ..core.facts import U, atoms_of
 from ..engine import argn, fn_name, kwarg, local_defs
 
 T, F, UNK = True, False, None
@@ -311,6 +311,81 @@ def truthiness_uses(f, name):
 
 
 
+
+
+
+# ------------------------------------------------------------------ a value derived once from an attribute that is re-assigned later
+STALE_DERIVED_OK = {
+    ("DifferentialEvolutionHyperbandScheduler", "_debug_log"): "_suggest swaps self._searcher out and back in within one call; the debug log does not change",
+}
+
+
+def stale_derived_attributes(ctx, cls):
+    """[(constructor statement, derived attribute, source attribute, re-assigning method)] a constructor computes self.A from
+    self.B, and another method of the class family later assigns self.B without recomputing self.A (e.g. a sign derived from the
+    mode, while configure_scheduler sets the mode afterwards): A keeps describing the old B"""
+    def stores_of(m):
+        out = set()
+        for x in walk_shallow(m.node):
+            if isinstance(x, (ast.Assign, ast.AugAssign, ast.AnnAssign)):
+                for t in (x.targets if isinstance(x, ast.Assign) else [x.target]):
+                    if isinstance(t, ast.Attribute) and isinstance(t.value, ast.Name) and t.value.id == "self":
+                        out.add(t.attr)
+        return out
+    ctors = ("__init__", "_create_internal", "_create_internal_common", "__setstate__")
+    out = []
+    for iname in ctors[:2]:
+        init = cls.methods.get(iname)
+        if init is None:
+            continue
+        for x in walk_shallow(init.node):
+            if not isinstance(x, ast.Assign):
+                continue
+            tg = [t.attr for t in x.targets if isinstance(t, ast.Attribute) and isinstance(t.value, ast.Name) and t.value.id == "self"]
+            if not tg or (cls.name, tg[0]) in STALE_DERIVED_OK:
+                continue
+            deps = {y.attr for y in ast.walk(x.value) if isinstance(y, ast.Attribute) and isinstance(y.value, ast.Name) and y.value.id == "self"
+                    and isinstance(y.ctx, ast.Load)} - set(tg)
+            if not deps:
+                continue
+            for k in sorted(ctx.family(cls), key=lambda k_: k_.name):
+                for m in k.methods.values():
+                    if m.name in ctors:
+                        continue
+                    st = stores_of(m)
+                    if (st & deps) and not (set(tg) & st):
+                        out.append((x, tg[0], sorted(st & deps)[0], f"{k.name}.{m.name}"))
+    return out
+
+# ------------------------------------------------------------------ paths that respect what a branch edge established
+def consistent_with(cond, truth):
+    """edge_ok for CFG.path: given that `cond` evaluated to `truth` at the start (e.g. decision == SchedulerDecision.STOP), reject
+    later branch edges that contradict it: the same expression compared equal to another member of the same enumeration, or
+    compared unequal to the same member.  (The expression is assumed not to be re-assigned on the way - the callers use it for
+    a loop-local decision / status variable between its test and the end of the iteration.)"""
+    facts = [a for a in atoms_of(cond, truth) if a[0] == "eq" and a[3] is True]
+
+    def enum_of(x):
+        pre = x.rsplit(".", 1)[0] if "." in x else None        # Status.failed, SchedulerDecision.STOP: <ClassName>.<member>
+        return pre if pre is not None and pre.split(".")[-1][:1].isupper() and "(" not in x and "[" not in x else None
+
+    def ok(label):
+        if not (isinstance(label, tuple) and label[0] == "cond"):
+            return True
+        for b in atoms_of(label[1], label[2]):
+            if b[0] != "eq":
+                continue
+            for a in facts:
+                for var, const in ((a[1], a[2]), (a[2], a[1])):
+                    if enum_of(const) is None or enum_of(var) is not None:
+                        continue
+                    for v2, c2 in ((b[1], b[2]), (b[2], b[1])):
+                        if v2 != var or enum_of(c2) != enum_of(const):
+                            continue
+                        if (b[3] is True and c2 != const) or (b[3] is False and c2 == const):
+                            return False
+        return True
+    return ok
 
 # ------------------------------------------------------------------ a class-level container that instances grow in place
 def shared_class_level_containers(ctx, cls):
@@ -1072,6 +1147,11 @@ def cross_cutting(ctx, rep, prop):
             rep.bad("X", "guarded_by", f"{f.short}: a looked-up number is defaulted on absence, not on falsity", f, u,
                     f"`{U(u)[:70]}` replaces a stored 0 by the default: the lookup needs `.get(key, default)` / an `is None` test")
     for c_ in sorted({f.cls for f in funcs if f.cls is not None}, key=lambda c_: c_.qualname if hasattr(c_, "qualname") else c_.name):
+        for st_, a_, b_, who_ in stale_derived_attributes(ctx, c_):
+            bad += 1
+            rep.bad("X", "agreement", f"{c_.name}: `{a_}` follows `{b_}`", c_, st_,
+                    f"`{U(st_)[:60]}` derives self.{a_} from self.{b_} once, in the constructor, but {who_} assigns self.{b_} later without recomputing it: "
+                    f"self.{a_} keeps describing the old value (e.g. the sign of a mode that configure_scheduler has changed since)")
         for st_, attr_ in shared_class_level_containers(ctx, c_):
             bad += 1
             rep.bad("X", "aliasing", f"{c_.name}.{attr_}: every instance has its own container", c_, st_,
